@@ -226,3 +226,77 @@ func TestC02FilterEnum(t *testing.T) {
 		}
 	})
 }
+
+// ---- partial opt-outs: an opt-out covers what it is written on, nothing else --------------
+
+type c02P struct {
+	Form  string `json:"form"`
+	Input string `json:"input"` // tainted expression
+	Safe  string `json:"safe"`  // the harmless part that carries the opt-out
+}
+
+// IN: a tainted expression, SF: a harmless value marked safe (a literal with |safe, a macro result,
+// a value Go code marked safe). What is printed from IN must be escaped in every form.
+var c02PartialForms = []string{
+	"{{ SF + IN }}", "{{ IN + SF }}", "{{ SF + IN + SF }}", "{{ (SF) + IN }}", "{{ IN + (SF + IN) }}",
+	"{% for it in [SF, IN] %}{{ it }}{% endfor %}", "{% set row = [SF, IN] %}{{ row.0 }}{{ row.1 }}", "{% with cells=[IN, SF] %}{{ cells.0 }}{{ cells.1 }}{% endwith %}",
+	"{% with a=SF b=IN %}{{ a }}{{ b }}{% endwith %}", "{% set a = SF %}{{ a + IN }}{{ a }}", "{% firstof SF IN %}{% firstof zero IN %}", "{% firstof empty|safe IN %}",
+	"{% macro pm(a, b) %}{{ a }}{{ b }}{% endmacro %}{{ pm(SF, IN) }}", "{% macro pd(a, b=IN) %}{{ a }}{{ b }}{% endmacro %}{{ pd(SF) }}",
+	"{% if SF %}{{ IN }}{% endif %}", "{% with sep=SF %}{{ items|join:sep }}{{ IN|add:sep }}{% endwith %}", "{% with sv=SF %}{{ IN|default:sv }}{{ empty|default:IN }}{{ sv|default:IN }}{% endwith %}",
+	"{% filter upper %}{{ SF }}{{ IN }}{% endfilter %}", "{% for q in nums %}{% cycle SF IN %}{% endfor %}", "{{ IN in SF }}{{ SF in IN }}",
+	`{% include "/pp.tpl" with a=SF b=IN %}`, "{% for it in items %}{{ SF + it }}{% endfor %}", "{% with sv=SF %}{{ sv|add:IN }}{% endwith %}", "{% with sv=SF %}{{ IN|add:sv }}{% endwith %}", "{% with w=SF + IN %}{{ w }}{% endwith %}",
+	"{% ifequal SF IN %}x{% else %}{{ IN }}{% endifequal %}", "{{ SF }}{{ IN }}", "{% set a = SF %}{% set a = IN %}{{ a }}",
+}
+
+var c02PartialInputs = []string{"name", "items.0", "obj.Name", "st_struct", "m.a", `greet("z")`, "named", "pstr", "title"}
+
+var c02PartialSafes = []string{`"lit"|safe`, `"lit"|safe|upper`, "sm()", "gosafe", `(7|safe)`, "gosafe|lower"}
+
+func checkC02P(c any, r *Rec) error {
+	cs := c.(*c02P)
+	src := strings.ReplaceAll(strings.ReplaceAll(cs.Form, "IN", cs.Input), "SF", cs.Safe)
+	src = "{% macro sm() %}mac{% endmacro %}" + src
+	set := pongo2.NewSet("c02p", newMemLoader(map[string]string{"/pp.tpl": "{{ a }}{{ b }}"}))
+	tpl, err := set.FromString(src)
+	if err != nil {
+		return skipf("does not compile: %v", err)
+	}
+	ctx := taintContext(0)
+	ctx["gosafe"] = pongo2.AsSafeValue("goSafe")
+	out, xerr := tpl.Execute(ctx)
+	if xerr != nil {
+		r.Class("execution-error")
+		return nil
+	}
+	if i, leaked := c02Leak(out); leaked {
+		return fmt.Errorf("%s: an opt-out written on a harmless part let a raw %q of the context text through: %q", src, out[i], out)
+	}
+	if c02Entity.MatchString(out) {
+		r.NonTrivial(src)
+	}
+	return nil
+}
+
+func c02PartialAll(yield func(any) bool) {
+	for _, form := range c02PartialForms {
+		for _, in := range c02PartialInputs {
+			for _, sf := range c02PartialSafes {
+				if !yield(&c02P{Form: form, Input: in, Safe: sf}) {
+					return
+				}
+			}
+		}
+	}
+}
+
+var _ = register(&propSpec{
+	ID:   "C02.partial",
+	Rule: "an opt-out covers only what it is written on: 28 forms in which a harmless value marked safe (a literal with |safe, also filtered further, a macro result, a value Go code marked safe) stands next to a tainted expression (9 kinds: string, slice item, struct field, Stringer, map value, function result, defined string type, *string, long text) - operands of +, items of one array literal, pairs of one with, arguments / defaults of one macro call, firstof, cycle, default, add, join separator, in, ifequal, filter tag body, include with, re-assignment. Exhaustive over form x input x safe part (1512 templates). Oracle as C02.program: no raw < > & ' \" in the output.",
+	Gen: func(t *rapid.T) any {
+		return &c02P{Form: pick(t, "form", c02PartialForms), Input: pick(t, "in", c02PartialInputs), Safe: pick(t, "sf", c02PartialSafes)}
+	},
+	New:   func() any { return &c02P{} },
+	Check: checkC02P,
+})
+
+func TestC02PartialEnum(t *testing.T) { enumerate(t, "C02.partial", "enum", c02PartialAll) }
